@@ -528,6 +528,11 @@ def parse_options_header(value: str | None) -> tuple[str, dict[str, str]]:
         if pk[-1] == "*":
             # key*=charset''value becomes key=value, where value is percent encoded
             pk = pk[:-1]
+
+            if not pk:
+                # *=value has no key, skip the invalid part
+                continue
+
             match = _charset_value_re.match(pv)
 
             if match:
@@ -562,6 +567,11 @@ def parse_options_header(value: str | None) -> tuple[str, dict[str, str]]:
         if match:
             # key*0=a; key*1=b becomes key=ab
             pk = pk[: match.start()]
+
+            if not pk:
+                # *0=value has no key, skip the invalid part
+                continue
+
             options[pk] = options.get(pk, "") + pv
         else:
             options[pk] = pv
